@@ -280,6 +280,25 @@ pub fn eval_whitelist(order: &[usize], with_encoding: bool, st: &mut Stats) -> R
                 (Err(e), Some(w)) => return Err(format!("{} digits ({} codewords) refused ({:?}) although {} is listed", 2 * k, k, e, SYMBOLS[w].name())),
             }
             st.count("picks_checked");
+            // ... and as binary data: latch + one length codeword + (k - 2) bytes; from 250 bytes on the
+            // length needs two codewords unless the field runs to the end of the symbol (length 0), so the
+            // pick is still the first symbol with at least k codewords
+            if k >= 3 {
+                let bin: Vec<u8> = (0..k - 2).map(|i| 0x80 | (i as u8).wrapping_mul(37)).collect();
+                let r = guarded(|| DataMatrixBuilder::new().with_symbol_list(l.clone()).encode(&bin)).map_err(|p| format!("encode: {}", p))?;
+                let want_b = if k - 2 >= 250 { it.iter().copied().find(|i| SYMBOLS[*i].data == k || SYMBOLS[*i].data > k) } else { want };
+                match (r, want_b) {
+                    (Ok(dm), Some(w)) => {
+                        if bridge::ref_index(dm.size) != w {
+                            return Err(format!("{} binary bytes ({} codewords): {:?} picked, first large enough in iteration order is {}", k - 2, k, dm.size, SYMBOLS[w].name()));
+                        }
+                    }
+                    (Err(_), None) => {}
+                    (Ok(dm), None) => return Err(format!("{} binary bytes fit {:?}?", k - 2, dm.size)),
+                    (Err(e), Some(w)) => return Err(format!("{} binary bytes ({} codewords) refused ({:?}) although {} is listed", k - 2, k, e, SYMBOLS[w].name())),
+                }
+                st.count("picks_checked");
+            }
             // ... and as a macro 05 message: one macro codeword + (k - 1) digit pairs (macro
             // compaction is on by default); 9 envelope bytes must not count against the capacity
             if k >= 1 {
